@@ -7,6 +7,11 @@ from .common import FUNCS, SRS, rnd_args, off_grid_dur
 def target_blueprint(rng, nseg=None, waits=True, aligned=False, SR=None, nmax=60):
     """A target segment list [(fn, args, dur, name, n_expected)] at sample rate SR.
     waituntil segments get a target time leaving >= 2 samples of padding (not near a tie)."""
+    # integer-typed durations (dur=2, not 2.0) at a sample rate that does not divide them: the forger must still
+    # deliver k/SR time axes and float durations
+    int_mode = SR is None and not aligned and rng.random() < 0.12
+    if int_mode:
+        SR = rng.choice([1, 1.7, 2.5, 12.5, 3])
     SR = SR if SR is not None else rng.choice(SRS)
     nseg = nseg or rng.randint(1, 8)
     segs = []
@@ -31,6 +36,9 @@ def target_blueprint(rng, nseg=None, waits=True, aligned=False, SR=None, nmax=60
                 d = n / SR
                 if round(Fraction(d) * Fraction(SR)) != n:
                     d = float(Fraction(n) / Fraction(SR))
+            elif int_mode:
+                d = rng.choice([k for k in range(1, 9)
+                                if round(k * Fraction(SR)) >= 2 and abs(k * Fraction(SR) - round(k * Fraction(SR))) <= Fraction(2, 5)])
             else:
                 d, n = off_grid_dur(rng, SR, 2, nmax)
             n = round(Fraction(d) * Fraction(SR))
